@@ -39,6 +39,8 @@ def match(kf: list[dict], pid: str, v) -> dict | None:
             continue
         if "kind_prefix" in m and not v.kind.startswith(m["kind_prefix"]):
             continue
+        if "kinds" in m and v.kind not in m["kinds"]:
+            continue
         ok = True
         for k, want in m.get("features", {}).items():
             have = v.features.get(k)
